@@ -22,8 +22,10 @@
    tracking in agreement with every later granule position.  The hypotheses are
    an executable test (seek_hyps); the per-run harness evaluates it for every
    sample seek it performs and demands position = target from the real code.
-   NOT proved: raw seeks, page-granularity seeks' own landing position, the
-   continued-packet fallback, seeks that finish inside the last page (end-of-
+   (4) PAGE SEEKS (ov_pcm_seek_page) under the same hypotheses: the position
+   reported is at or below the target and is where the first following packet
+   ends; the next fetch delivers nothing and leaves the handle in sync there.
+   NOT proved: raw seeks, the continued-packet fallback, seeks that finish inside the last page (end-of-
    stream trim), half-rate: tied per run by the bit-exact oracle.  See DESIGN.md
    section 13. *)
 From VV Require Import Blocking VFile VFile_lemmas VFileDemo Sync_lemmas Seek_lemmas.
@@ -93,6 +95,24 @@ Theorem C07_pcm_seek_checked :
     Truthful (auto_tail (snd (pcm_seek_page s pos))) (snd (pcm_seek s pos)) pos.
 Proof. exact pcm_seek_checked. Qed.
 Print Assumptions C07_pcm_seek_checked.
+
+(* page-granularity seek on an intact run: the position it reports (at or below the target) is where the
+   first packet that follows ends; the first fetch after it delivers nothing and leaves the handle in sync
+   exactly at the reported position, with the rest of the run intact from there *)
+Theorem C07_page_seek_truthful_on_intact_run :
+  forall (tail : list page) s pos s1,
+    v_hs s = 0 -> OPENED <= v_rs s <= INITSET ->
+    pcm_seek_page s pos = (0, s1) -> fallback s pos = false -> FileIntact tail s1 pos ->
+    let s2 := make_ready s1 in
+    let e := v_pcm s1 - base_of s1 (v_link s1) in
+    v_pcm s1 <= pos /\
+    exists p r w s0,
+      stream tail s2 = p :: r /\ pk_W p = Some w /\
+      fetch (fetch_fuel s2) s2 = (1, feed s0 p w) /\
+      SyncInv (feed s0 p w) e /\ dec_pcmout (v_dec (feed s0 p w)) = 0 /\ v_pcm (feed s0 p w) = v_pcm s1 /\
+      IntactS (cur_link s1) false e w r.
+Proof. exact pcm_seek_page_truthful. Qed.
+Print Assumptions C07_page_seek_truthful_on_intact_run.
 
 (* what "truthful" means for the samples delivered next: with samples pending, draining them
    delivers n samples, the position advances by n and the handle is in sync there (so theorem
